@@ -56,13 +56,20 @@ Definition forall2b {A B} (f : A -> B -> bool) : list A -> list B -> bool :=
     | _, _ => false
     end.
 
+(* map keys strictly ascending *)
+Fixpoint sorted_keys (m : list (Z * Z)) : bool :=
+  match m with
+  | [] => true
+  | (k, _) :: t => forallb (fun kv => k <? fst kv) t && sorted_keys t
+  end.
+
 Fixpoint conforms (s : sch) (c : cfg) {struct s} : bool :=
   match s, c with
   | SLeaf, Leaf _ _ => true
   | SObj _, Obj None => true
   | SObj ss, Obj (Some fs) => forall2b conforms ss fs
   | SArr e, Arr xs => forallb (conforms e) xs
-  | SMap, Map _ => true
+  | SMap, Map kvs => sorted_keys kvs
   | _, _ => false
   end.
 
@@ -209,3 +216,34 @@ Definition clean_op (sds : list secdef) (o : op) : bool :=
   end.
 
 Definition clean_input (i : input) : bool := forallb (clean_op (in_secs i)) (in_ops i).
+
+(* ---------- well-formed inputs: every tree of a section is a value of that section's Go type ---------- *)
+Definition present (c : cfg) : bool := match c with Obj None => false | _ => true end.
+
+Definition is_sobj (s : sch) : bool := match s with SObj _ => true | _ => false end.
+
+(* a merged section's strategy type is a struct and its built-in default is not nil *)
+Definition wf_secdef (s : sch) (sd : secdef) : bool :=
+  conforms s (sd_default sd)
+  && (negb (sd_merge sd) || (present (sd_default sd) && is_sobj s)).
+
+Definition wf_section (s : sch) (x : section_in) : bool :=
+  match x with
+  | SValue c es => conforms s c && forallb (fun e => conforms s (e_strat e)) es
+  | _ => true
+  end.
+
+Definition wf_cmap (ss : list sch) (c : cmap) : bool :=
+  forallb (fun isx => wf_section (snd isx) (nth (fst isx) c SAbsent))
+          (combine (seq 0 (length ss)) ss).
+
+Definition wf_op (ss : list sch) (o : op) : bool :=
+  match o with
+  | OSync c => wf_cmap ss c
+  | ONop => true
+  | OAvail (Some c) => wf_cmap ss c
+  | OAvail None => true
+  end.
+
+Definition wf_input (ss : list sch) (i : input) : bool :=
+  forall2b wf_secdef ss (in_secs i) && forallb (wf_op ss) (in_ops i).
